@@ -882,17 +882,20 @@ time_zone::civil_lookup TimeZoneInfo::TimeLocal(const civil_second& cs,
                                                 year_t c4_shift) const {
   assert(last_year_ - 400 < cs.year() && cs.year() <= last_year_);
   time_zone::civil_lookup cl = MakeTime(cs);
-  if (c4_shift > seconds::max().count() / kSecsPer400Years) {
-    cl.pre = cl.trans = cl.post = time_point<seconds>::max();
-  } else {
-    const auto offset = seconds(c4_shift * kSecsPer400Years);
-    const auto limit = time_point<seconds>::max() - offset;
-    for (auto* tp : {&cl.pre, &cl.trans, &cl.post}) {
-      if (*tp > limit) {
-        *tp = time_point<seconds>::max();
-      } else {
-        *tp += offset;
-      }
+  // Add c4_shift * kSecsPer400Years to each result, saturating at max().
+  // The product alone can exceed the seconds range while the sum is still
+  // representable, so compare the shift with the number of whole cycles
+  // that fit above each result (unsigned arithmetic, which cannot overflow).
+  using U = std::uint_fast64_t;
+  const U cycle = static_cast<U>(kSecsPer400Years);
+  for (auto* tp : {&cl.pre, &cl.trans, &cl.post}) {
+    const U t = static_cast<U>(ToUnixSeconds(*tp));
+    const U room = static_cast<U>(seconds::max().count()) - t;
+    if (static_cast<U>(c4_shift) > room / cycle) {
+      *tp = time_point<seconds>::max();
+    } else {
+      *tp = FromUnixSeconds(static_cast<std::int_fast64_t>(
+          t + static_cast<U>(c4_shift) * cycle));
     }
   }
   return cl;
